@@ -222,3 +222,16 @@ func vpGenFilterFocused(name string) *ReqFilter {
 	}
 	return f
 }
+
+// vpCapacity: a free store capacity >= min. Natively (replay of a model) a huge
+// value is clamped: the runtime would try to pre-size maps with that many
+// buckets; for the short histories explored every capacity above their length
+// behaves identically.
+func vpCapacity(min int) int {
+	c := vpInt("cap")
+	vpAssume(c >= min)
+	if !vpSymbolic() && c > 1<<20 {
+		c = 1 << 20
+	}
+	return c
+}
